@@ -514,7 +514,7 @@ func (w *World) eventEnabled(ev string) bool {
 		return w.P != nil && w.P.conn != nil && !w.P.conn.IsClosed() && !w.P.conn.Peer.IsClosed()
 	case "burst":
 		pc := w.connOf(p[1])
-		return !w.bursted && pc != nil && pc.conn != nil && !pc.conn.IsClosed() && !pc.conn.Peer.IsClosed()
+		return !w.bursted[p[1]] && pc != nil && pc.conn != nil && !pc.conn.IsClosed() && !pc.conn.Peer.IsClosed()
 	case "inv", "tx", "uping":
 		if p[0] != "uping" && p[1] == "T" && len(p) > 2 {
 			// peer assumption: a Bitcoin node does not relay a tx that double spends a tx confirmed on its best chain
